@@ -449,6 +449,8 @@ SAME_MACROS = ["LONGS_EQUAL", "UNSIGNED_LONGS_EQUAL", "LONGLONGS_EQUAL", "UNSIGN
                "CHECK_EQUAL_C_ULONG", "CHECK_EQUAL_C_LONGLONG", "CHECK_EQUAL_C_ULONGLONG", "CHECK_EQUAL_C_CHAR",
                "CHECK_EQUAL_C_UBYTE", "CHECK_EQUAL_C_SBYTE"]
 ONE_MACROS = ["CHECK", "CHECK_TRUE", "CHECK_FALSE", "CHECK_C", "CHECK_EQUAL_ZERO"]
+COMPOUND_MACROS = ["CHECK", "CHECK_TRUE", "CHECK_FALSE"]
+COMPOUND_OPS = [("or", "||"), ("and", "&&"), ("eq", "=="), ("lt", "<")]
 RELOPS = [("lt", "<"), ("le", "<="), ("gt", ">"), ("ge", ">="), ("eq", "=="), ("ne", "!=")]
 MASK_TYPES = ["i32", "u8", "u64"]
 C_ENTRIES = ["CHECK_EQUAL_C_BOOL_LOCATION", "CHECK_EQUAL_C_INT_LOCATION", "CHECK_EQUAL_C_UINT_LOCATION",
@@ -492,6 +494,12 @@ def probe_list():
             for tm in MASK_TYPES:
                 out.append(("M_%s_%s_%s" % (m, t[0], tm), [("e", t[0]), ("a", t[0]), ("m", tm)], "%s(e, a, m);" % cm))
         out.append(("M_%s_TEXT_i32_i32" % m, [("e", "i32"), ("a", "i32"), ("m", "i32")], '%s_TEXT(e, a, m, "text");' % cm))
+    # the boolean macros on a COMPOUND condition (top-level operator binds weaker than unary ! and than a cast): the expansion
+    # must apply its own operators to the whole argument - a missing pair of parentheses around the macro parameter shows here
+    for m in COMPOUND_MACROS:
+        for on, oc in COMPOUND_OPS:
+            out.append(("M_%s_%s_i32" % (m, on), [("e", "i32"), ("a", "i32")], "%s(e %s a);" % (m, oc)))
+        out.append(("M_%s_TEXT_or_i32" % m, [("e", "i32"), ("a", "i32")], '%s_TEXT(e || a, "text");' % m))
     return out + OTHER_PROBES
 
 
